@@ -1,6 +1,7 @@
 package rules
 
 import (
+	"go/constant"
 	"go/token"
 	"go/types"
 	"strings"
@@ -248,6 +249,75 @@ func (x *Ctx) callerArgs(fn *ssa.Function, p *ssa.Parameter) []ssa.Value {
 		}
 		if idx < len(args) {
 			out = append(out, args[idx])
+		}
+	}
+	return out
+}
+
+// constStr resolves a package-level string constant.
+func (x *Ctx) constStr(rule, rel, name string) (string, bool) {
+	pk := x.P.ByRel[rel]
+	if pk != nil {
+		if c, ok := pk.Types.Scope().Lookup(name).(*types.Const); ok && c.Val().Kind() == constant.String {
+			return constant.StringVal(c.Val()), true
+		}
+	}
+	x.C.Unresolved(rule, rel+"."+name, "constant "+rel+"."+name+" not found")
+	return "", false
+}
+
+// payloadSetKey returns the constant key of a (*types.Payload).Set call.
+func payloadSetKey(in ssa.Instruction) (string, ssa.CallInstruction, bool) {
+	cl, ok := eng.IsCall(in, nPayloadSet)
+	if !ok {
+		return "", nil, false
+	}
+	a := eng.CallArgs(cl)
+	if len(a) < 2 {
+		return "", nil, false
+	}
+	k, ok := eng.ConstString(a[0])
+	return k, cl, ok
+}
+
+// implementations returns production methods named `method` on types of
+// package rel that implement the interface ifaceRel.iface.
+func (x *Ctx) implementations(ifaceRel, iface, method string, rels ...string) []*ssa.Function {
+	in := x.P.Named(ifaceRel, iface)
+	if in == nil {
+		return nil
+	}
+	it, ok := in.Underlying().(*types.Interface)
+	if !ok {
+		return nil
+	}
+	var out []*ssa.Function
+	for _, rel := range rels {
+		pk := x.P.ByRel[rel]
+		if pk == nil {
+			continue
+		}
+		sc := pk.Types.Scope()
+		for _, n := range sc.Names() {
+			tn, ok := sc.Lookup(n).(*types.TypeName)
+			if !ok || tn.IsAlias() {
+				continue
+			}
+			nt, ok := tn.Type().(*types.Named)
+			if !ok || nt.TypeParams().Len() > 0 {
+				continue
+			}
+			if _, isI := nt.Underlying().(*types.Interface); isI {
+				continue
+			}
+			if !types.Implements(types.NewPointer(nt), it) && !types.Implements(nt, it) {
+				continue
+			}
+			f := x.P.Func(rel, n, method)
+			if f == nil || f.Blocks == nil || x.P.IsDoubleFunc(f) {
+				continue
+			}
+			out = append(out, f)
 		}
 	}
 	return out
